@@ -10,4 +10,6 @@ Emit == PrintT(ToJson(<<7777777, OpCode(lastOp'), lastArg', lastRet',
                  t.root, t.left, t.right, t.par, t.tag,
                  t'.root, t'.left, t'.right, t'.par, t'.tag, SetSeq(lastCase')>>))
 NoEmit == TRUE
+TI == INSTANCE TreeIter
+IterOK == TI!IterInv(t)
 =============================================================================
